@@ -12,6 +12,7 @@ class HistoryProp(Prop):
     genome = {'quick': 300, 'thorough': 300}
     ref_steps = 4000
     min_decided = 3
+    shrink_budget = 150
 
     def selftest(self, tier):
         self._tier = tier
